@@ -171,6 +171,9 @@ GRID = [
     dict(num_jobs=(4, 6), num_machines=(2, 4), duration_range=(1, 9), allow_less_jobs_than_machines=False,
          machines_per_operation=(1, 2)),
     dict(num_jobs=(1, 3), num_machines=(1, 2), duration_range=(0, 2)),
+    # the same request spelled differently: one machine per operation as a range, an exact count as an int
+    dict(num_jobs=(2, 4), num_machines=(3, 4), duration_range=(1, 9), machines_per_operation=(1, 1)),
+    dict(num_jobs=3, num_machines=(3, 4), duration_range=(1, 5), machines_per_operation=3),
 ]
 
 
